@@ -1,10 +1,18 @@
+from checks import finite
 from checks.common import Report
 from checks.e1 import run_e1
+from checks.e3opt import run_e3opt
 
 
 def run(tier, seed):
     rep = Report("C17", tier, seed)
     run_e1(rep, "C17", tier)
-    rep.assume("A-FLOAT: float/complex arithmetic treated as real arithmetic", "A-INT: ints unbounded")
-    rep.trust("pyvc (E1 interpreter and models)", "z3 5.1.0", "cvc5")
+    finite.c17_check_dependency(rep, tier, seed)
+    run_e3opt(rep, tier, seed)
+    rep.assume("A-FLOAT: float/complex arithmetic treated as real arithmetic (0*x -> 0, reassociation by licm are identities over the reals)",
+               "A-INT: ints unbounded",
+               "optimiser passes: validated per call on the corpus by exact rational evaluation on two pseudo-random input draws "
+               "(polynomial identity testing) - bounded, not a proof; check_dependency is sound only for index expressions nested at "
+               "most one level (deeper nestings are not built by the generators)")
+    rep.trust("pyvc (E1 interpreter and models)", "z3 5.1.0", "cvc5", "runtime/lnodes_eval.py")
     return rep.finish()
